@@ -454,6 +454,7 @@ pub struct RunOutput {
     pub perm: String,
     pub unmodelled: Vec<String>,
     pub downloads: usize,
+    pub short_reads: u64,
 }
 
 pub fn run_once(sc: &Sc, mode: Mode, hash_seed: u64) -> RunOutput {
@@ -553,7 +554,7 @@ pub fn run_once_in(sc: &Sc, mode: Mode, hash_seed: u64, keep_cache: bool, boc: O
         Some((p, n)) => (p.to_string(), n.parse().unwrap_or(0)),
         None => (perm, 0),
     };
-    RunOutput { stdout: out.stdout, stderr: out.stderr, files, ok, panic, perm, unmodelled: out.unmodelled, downloads }
+    RunOutput { stdout: out.stdout, stderr: out.stderr, files, ok, panic, perm, unmodelled: out.unmodelled, downloads, short_reads: out.short_reads }
 }
 
 // ------------------------------------------------ end-to-end lane (real acb processes)
@@ -662,7 +663,7 @@ pub fn run_e2e(sc: &Sc, mode: Mode, hash_seed: u64, used_out_dir: Option<&Vec<(S
     files.sort();
     let _ = std::fs::remove_dir_all(&root);
     let signalled = o.status.code().is_none();
-    Ok(RunOutput { stdout: o.stdout, stderr: o.stderr, files, ok: o.status.code().map(|c| c == 0), panic: if signalled || o.status.code() == Some(101) { Some(format!("real process ended with {:?}", o.status)) } else { None }, perm: String::new(), unmodelled: vec![], downloads: 0 })
+    Ok(RunOutput { stdout: o.stdout, stderr: o.stderr, files, ok: o.status.code().map(|c| c == 0), panic: if signalled || o.status.code() == Some(101) { Some(format!("real process ended with {:?}", o.status)) } else { None }, perm: String::new(), unmodelled: vec![], downloads: 0, short_reads: 0 })
 }
 
 pub struct NoNetwork {}
@@ -971,8 +972,11 @@ impl Engine for C09 {
                 let used = if hi % 2 == 1 && matches!(mode, Mode::CsvDir | Mode::TotalCostsCsvDir) { first.as_ref().map(|f| &f.1.files).filter(|f| !f.is_empty()) } else { None };
                 if used.is_some() {
                     st.bump("probe.output_dir_used_by_an_earlier_longer_run");
+                    st.bump("fault.output_dir_holds_longer_files_of_an_earlier_run");
                 }
                 let out = run_once_in(sc, *mode, *hs, hi > 0 && boc.is_some(), boc.clone(), used);
+                st.add("fault.legal_short_reads", out.short_reads);
+                st.bump("fault.hash_seed_redrawn_for_a_process");
                 if boc.is_some() {
                     if hi == 0 && out.downloads > 0 {
                         st.bump("probe.fx_first_run_downloaded");
